@@ -63,7 +63,7 @@ def tla_env(scn):
 
 
 MC_CFG = """SPECIFICATION %s
-CONSTANTS Workers = {0,1,2,3,4}
+CONSTANTS Workers = {0,1,2,3,4,5,6,7,8}
 Tasks = {1,2,3,4,5,6}
 Follow <- MCFollow
 Env <- MCEnv
@@ -125,7 +125,7 @@ def run(chk, replay=None):
             meta[str(t)] = (res["scn"]["env"], choices)
     chk.extra["schedules_executed"] = runs
     chk.extra["distinct_event_sequences"] = len(traces)
-    consts = "CONSTANTS Workers = {0,1,2,3,4,5,6,7}\nTasks = {1,2,3,4,5,6}\nFollow <- TFollow\n"
+    consts = "CONSTANTS Workers = {0,1,2,3,4,5,6,7,8,9}\nTasks = {1,2,3,4,5,6}\nFollow <- TFollow\n"
     # Follow is fixed for all scenarios (tasks 3 and 4 submit 5 and 6)
     wd_mod = "Trace_Dispatcher"
     rej, drift = tv.validate(chk, wd_mod, traces, consts, name="TV:Dispatcher", workers=8)
